@@ -18,6 +18,11 @@ The reference is evaluated twice, by two independent routes:
 Outcome layouts are judged against the shape the result itself reports: every factor carries a
 different outcome count, hence every reported axis identifies exactly one factor.
 
+Families: state / povm / channel (gate, mprocess) / ensemble arrangements on generic factors, `pairs` (every
+ordered pair of the named shared alphabet on two subsystems), `joint` (a non-product factor on two subsystems
+times a factor on a third one, the three interleavings of the names; reference = tensor-axis transposition of
+the dense Kronecker product), `basis` (MatrixBasis / SparseMatrixBasis sequences), `embed`, `embed2`.
+
 Embedding (qutrit -> two qubits): the reference only knows the Born rule.  Statistics of embedded
 states under embedded gates / measurement processes / POVMs are compared with the qutrit statistics,
 physicality of every embedded object is re-derived from dense matrices.
